@@ -447,9 +447,13 @@ Definition gtop_step (env : renv) (G : genv) (stm : stmt) : option (renv * genv 
       match gcall_ok env G stm with
       | Some (out, evs) => Some (env, G, out, evs)
       | None =>
-          match mod_ok env G stm with
-          | Some (out, evs) => Some (env, G, out, evs)
-          | None => match ptop_step env stm with Some (env', out, evs) => Some (env', G, out, evs) | None => None end
+          match phase_ok stm with
+          | Some out => Some (env, G, out, [])
+          | None =>
+              match mod_ok env G stm with
+              | Some (out, evs) => Some (env, G, out, evs)
+              | None => match ptop_step env stm with Some (env', out, evs) => Some (env', G, out, evs) | None => None end
+              end
           end
       end
   end.
@@ -509,10 +513,13 @@ Proof.
                                gates s1 = G' /\ gstack s1 = []).
     { assert (Hother : (match gcall_ok env G stm with
                         | Some (out, evs) => Some (env, G, out, evs)
-                        | None => match mod_ok env G stm with
+                        | None => match phase_ok stm with
+                                  | Some out => Some (env, G, out, [])
+                                  | None =>
+                                  match mod_ok env G stm with
                                   | Some (out, evs) => Some (env, G, out, evs)
                                   | None => match ptop_step env stm with Some (env', out, evs) => Some (env', G, out, evs) | None => None end
-                                  end
+                                  end end
                         end) = Some (env', G', out, ev1) -> 
                        exists s1, visit_stmt false [] fuel stm s = Ok (out, s1) /\ Top env' s1 /\
                                num_qubits s1 = num_qubits s + total_qubits out /\ num_clbits s1 = num_clbits s + total_clbits out /\
@@ -530,7 +537,13 @@ Proof.
           destruct (DE_counts _ _ D1) as [Nq Nc]. destruct (gframe_DE _ _ D1) as [Fg Fs].
           exists s1. split; [exact E1|]. split; [eapply Top_DE; eauto|]. split; [lia|]. split; [lia|]. split; [exact S1|].
           split; [intros r0; now apply wf_flat_ops|]. split; congruence.
-        - destruct (mod_ok env G stm) as [[mo me]|] eqn:Emo.
+        - destruct (phase_ok stm) as [po|] eqn:Epo.
+          { injection Eo as <- <- <- <-. destruct fuel as [|f]; [lia|].
+            pose proof (phase_gen_fix false f s stm po Epo) as E1.
+            pose proof (phase_ok_ops env stm po Epo) as Ops. destruct (total_ops env po Ops) as [Tq Tc].
+            exists s. split; [exact E1|]. split; [exact T|]. split; [lia|]. split; [lia|]. split; [apply Dstep_same; reflexivity|].
+            split; [intros r0; now apply wf_flat_ops|]. split; assumption. }
+          destruct (mod_ok env G stm) as [[mo me]|] eqn:Emo.
           { injection Eo as <- <- <- <-. destruct fuel as [|f]; [lia|].
             destruct (mod_fix false f env G s stm mo me (T_regs _ _ T) HG Emo) as (s1 & E1 & D1 & S1).
             pose proof (mod_ok_ops env G stm mo me Emo) as Ops. destruct (total_ops env mo Ops) as [Tq Tc].
@@ -651,10 +664,13 @@ Proof.
         destruct (gframe_DE _ _ D1) as [Fg Fs]. split; [eapply Top_DE; eauto|]. split; [lia|]. split; [lia|]. split; congruence. }
       assert (Hother : (match gcall_ok env G stm with
                         | Some (out, evs) => Some (env, G, out, evs)
-                        | None => match mod_ok env G stm with
+                        | None => match phase_ok stm with
+                                  | Some out => Some (env, G, out, [])
+                                  | None =>
+                                  match mod_ok env G stm with
                                   | Some (out, evs) => Some (env, G, out, evs)
                                   | None => match ptop_step env stm with Some (env', out, evs) => Some (env', G, out, evs) | None => None end
-                                  end
+                                  end end
                         end) = Some (env', G', out, ev1) ->
                        exists s1, visit_stmt true [] fuel stm s = Ok ([], s1) /\ Top env' s1 /\
                                num_qubits s1 = num_qubits s + total_qubits out /\ num_clbits s1 = num_clbits s + total_clbits out /\
@@ -668,7 +684,11 @@ Proof.
           assert (HNf : (gate_nesting <= S f)%nat) by lia.
           destruct (gcall_fix true env G gate_nesting f [] s name args vs qubits bss out' evs' HNf (T_regs _ _ T) HG Hst Ev Eb Edd Ec) as (s1 & E1 & D1 & S1).
           exists s1. split; [exact E1|]. apply HDE; auto. eapply gcall_ops; eauto.
-        - destruct (mod_ok env G stm) as [[mo me]|] eqn:Emo.
+        - destruct (phase_ok stm) as [po|] eqn:Epo.
+          { injection Eo as <- <- <- <-. destruct fuel as [|f]; [lia|].
+            pose proof (phase_gen_fix true f s stm po Epo) as E1.
+            exists s. split; [exact E1|]. apply HDE; auto; [apply DE_refl|]. eapply phase_ok_ops; eauto. }
+          destruct (mod_ok env G stm) as [[mo me]|] eqn:Emo.
           { injection Eo as <- <- <- <-. destruct fuel as [|f]; [lia|].
             destruct (mod_fix true f env G s stm mo me (T_regs _ _ T) HG Emo) as (s1 & E1 & D1 & S1).
             exists s1. split; [exact E1|]. apply HDE; auto. eapply mod_ok_ops; eauto. }
